@@ -138,10 +138,63 @@ class Grammar:
                 else:
                     self.rules[cur].action["s"].append(st)
         self._wrappers = self._call_wrappers(facts)
+        self._facts = facts
+        helpers = self._action_helpers(facts)
         for r in self.rules:
             if r.action is not None:
+                if helpers:
+                    r.action = self._inline_helpers(r.action, helpers, 0)
                 self._scan_calls(r)
         self.n_actions = nact
+
+    def _action_helpers(self, facts):
+        """functions of parser.y that an action may call and that (transitively) talk to the builder through a CALL
+        wrapper: {name: function}.  Their bodies are put in place of the call, parameters replaced by the arguments, so
+        that the callbacks they issue are callbacks of the production."""
+        local = {}
+        for fn in facts.functions.values():
+            if (fn.get("file") or "").endswith("parser.y") and fn.get("body") is not None and fn.get("static") and \
+                    fn["q"] not in self._wrappers and fn["name"] not in ("utap_parse", "utap_error", "utap_lex", "utap_msg"):
+                local[fn["q"]] = fn
+        reach = set()
+        changed = True
+        while changed:
+            changed = False
+            for q, fn in local.items():
+                if q in reach:
+                    continue
+                for c in walk(fn["body"]):
+                    if c.get("k") == "call" and (c.get("fn") in self._wrappers or c.get("fn") in reach):
+                        reach.add(q)
+                        changed = True
+                        break
+        return {q: local[q] for q in reach}
+
+    def _inline_helpers(self, node, helpers, depth):
+        import copy
+
+        def subst(n, env):
+            if isinstance(n, list):
+                return [subst(x, env) for x in n]
+            if not isinstance(n, dict):
+                return n
+            if n.get("k") == "ref" and n.get("dk") == "param" and n.get("name") in env:
+                return env[n["name"]]
+            return {k: subst(v, env) if isinstance(v, (dict, list)) else v for k, v in n.items()}
+
+        def rec(n):
+            if isinstance(n, list):
+                return [rec(x) for x in n]
+            if not isinstance(n, dict):
+                return n
+            if n.get("k") == "call" and n.get("fn") in helpers and depth < 4:
+                h = helpers[n["fn"]]
+                env = {p_["name"]: a for p_, a in zip(h["params"], n.get("args", []))}
+                body = subst(copy.deepcopy(h["body"]), env)
+                return self._inline_helpers({"k": "block", "l": n.get("l"), "inlined_from": h["name"],
+                                             "s": body.get("s", [])}, helpers, depth + 1)
+            return {k: rec(v) if isinstance(v, (dict, list)) else v for k, v in n.items()}
+        return rec(node)
 
     @staticmethod
     def _call_wrappers(facts):
@@ -216,6 +269,11 @@ class Grammar:
                 c = inner[0]
                 if (c.get("recv") or {}).get("name") != "ch":
                     raise AnalysisBroken("CALL receiver is not ch in rule %r" % r)
+                if c.get("name") is None and c.get("memptr") is not None:
+                    tgt = self._facts.memptr_target(c["memptr"])
+                    if tgt is None:
+                        raise AnalysisBroken("callback through a pointer to member that the source does not fix, in rule %r" % r)
+                    c = dict(c, name=tgt[0], fn=tgt[1])
                 first, last = self._sym_index(r, args[fi]), self._sym_index(r, args[li])
                 n_rhs = self.rhs_len_for_refs(r)
                 first = (1 if n_rhs else 0) if first == ("@$",) else first
